@@ -37,7 +37,19 @@ type TaskDef struct {
 	Outs []Out    `json:"outs,omitempty"`
 	NCmd int      `json:"ncmd"`
 	Raw  []string `json:"raw,omitempty"` // extra raw command lines appended after the standard ones
+	// Writes are files this task's first commands (over)write: a code generator or
+	// formatter whose outputs are other tasks' inputs. Content has no spaces.
+	Writes []FileWrite `json:"writes,omitempty"`
 }
+
+// FileWrite is one file a task writes when it runs: `echo <content> > $PROJ/<path>`.
+type FileWrite struct {
+	Path    string `json:"path"`
+	Content string `json:"content"`
+}
+
+// Disk is the content the write leaves on disk.
+func (f FileWrite) Disk() string { return f.Content + "\n" }
 
 // Program is what a spokfile is rendered from.
 type Program struct {
@@ -109,6 +121,9 @@ func (p *Program) Render() string {
 			}
 		}
 		b.WriteString(" {\n")
+		for _, fw := range t.Writes {
+			fmt.Fprintf(&b, "%secho %s > $PROJ/%s\n", ind, fw.Content, fw.Path)
+		}
 		for i := 0; i < t.NCmd; i++ {
 			b.WriteString(ind + StdCmd(t.Name, i) + "\n")
 		}
@@ -270,6 +285,8 @@ func splitAlts(pattern string) []string {
 
 // GlobMatch reports whether slash-separated relative path rel matches pattern.
 func GlobMatch(pattern, rel string) bool {
+	// "./src/*.go" and "src/./*.go" name the same files as "src/*.go"
+	pattern = path.Clean(pattern)
 	for _, p := range splitAlts(pattern) {
 		if segsMatch(strings.Split(p, "/"), strings.Split(rel, "/")) {
 			return true
